@@ -13,11 +13,11 @@ claim("C18", "property-based differential testing against math/big (rapid, biase
   "math/big is trusted; truncating division conventions of Int.Quo/Dec.QuoInt assumed; known finding C18/dec/quo-36-digit-double-rounding is excluded by its exact predicate and reported as KNOWN-FINDING",
   "DESIGN.md §4 C18")
 
-claim("C12", "model-based property testing of commit/reopen/LoadVersion histories (rapid stateful programs vs. snapshot-per-version model)", "exploration",
+claim("C12", "model-based property testing of commit/reopen/LoadVersion histories incl. restart one block behind and refused loads on the live object (rapid stateful programs vs. snapshot-per-version model)", "exploration",
   "Generated write/delete/commit/reopen histories over 1-4 IAVL stores and a transient store under every pruning policy shape are run on rootmulti; after every commit and reopen the version step, commit id and full content are compared with a snapshot-per-version model, and a fresh store must load exactly the versions the documented pruning rule retains (pruned/future => error).",
   "MemDB back end (durability of the DB engine is trusted); retention model = documented pruning rule; lazy loading and StoreTypeDB mounts are outside the generated configurations",
   "DESIGN.md §4 C12")
-claim("C13", "fault injection by crash-point enumeration over generated commit histories (instrumented DB, reopen-and-replay oracle)", "fault_enumeration",
+claim("C13", "fault injection by crash-point enumeration over generated commit histories (instrumented DB, reopen-and-replay oracle, continuation against an uninterrupted reference run)", "fault_enumeration",
   "For generated histories every durable write unit of the interrupted commit(s) is used as a crash point (complete enumeration per interrupted commit): the surviving database must reopen at the old or new version with exactly that version's hash and content in all stores, replay must reproduce the uninterrupted hash, and retained versions must stay loadable.",
   "atomic batch writes assumed; crash = process death between durable write units; two known findings (prune of the last flushed version when keepRecent=0; partial first commit) are excluded by their exact predicates and reported as KNOWN-FINDING",
   "DESIGN.md §4 C13")
@@ -30,21 +30,21 @@ claim("C16", "differential model-based testing of wrapper stacks (prefix map mod
   "gas charges as documented in store/gaskv and KVGasConfig; state after a gas panic is not asserted; trace lines exact only for a trace wrapper on top of the stack",
   "DESIGN.md §4 C16")
 
-claim("C14", "model-based property testing of store queries on a live BaseApp with real proof verification (differential across heights, metamorphic value/key flips)", "exploration",
+claim("C14", "model-based property testing of key and subspace store queries on a live and reopened BaseApp with real proof verification (differential across heights, metamorphic value/key flips)", "exploration",
   "Generated tx/commit/query histories on a BaseApp with a kv module: every /store/<s>/key answer is compared with the snapshot committed at the requested height (also while uncommitted writes exist), proofs are verified with the real proof runtime against that height's app hash, must fail against every other height's hash and for flipped values/keys; pruned/future heights must return neither value nor proof.",
   "tendermint merkle proof runtime trusted as verifier; two known findings rooted in tendermint/iavl v0.12.4 getRangeProof (absence-proof leaves, all-0xFF key) are excluded by predicates computed from the committed key set and reported as KNOWN-FINDING",
   "DESIGN.md §4 C14")
 
 CH = "state is read from the root multistore's working state and decoded independently of the keepers; Tendermint is mirrored by the harness (validator-set delay, tx index stub); listed known findings are excluded by construction and reported as KNOWN-FINDING"
-claim("C01", "differential testing of twin application instances over generated ABCI histories (rapid, restart and pruning differentials, extra read-only traffic on one twin)", "exploration",
+claim("C01", "differential testing of twin application instances over generated ABCI histories (rapid, restart and pruning differentials, extra read-only traffic on one twin) + schedule-controlled iterator programs (harness-owned goroutine schedule via a gated database, late-read oracle)", "exploration",
   "Two independently built instances receive the same generated consensus requests (genesis with map-typed sections, votes, evidence, valid/invalid transactions, awards, burns, monotone times); one is restarted from its database at generated points, the other uses a different pruning configuration and gets extra CheckTx/Simulate/Query traffic; every consensus-relevant response and the app hash at every height must be identical.",
   "map-order / goroutine-timing nondeterminism is sampled per case, not enumerated; logs and gas not compared; " + CH, "DESIGN.md §4 C01")
 claim("C02", "history invariant checking with a supply ledger over generated ABCI histories (rapid)", "exploration",
   "After every ABCI call of a generated history the recorded supply must equal the sum of all balances, no balance may be negative, and the supply delta of the call must match the statement (only award mints, slash/forced-unstake burns in BeginBlock and DAO burns move it).",
   CH, "DESIGN.md §4 C02")
-claim("C03", "decision-table oracle over generated and mutated signed transactions observed through CheckTx/DeliverTx (rapid)", "exploration",
+claim("C03", "decision-table oracle over generated and mutated signed transactions observed through CheckTx/DeliverTx, signature validity decided by construction (rapid)", "exploration",
   "Transactions of every message and key type (key in signature or in state), signed by the right or a foreign key, with one post-signing mutation, fee/balance edge cases and replays are submitted; accept/reject is compared with a model written from the statement, rejected ones must leave the state byte-identical, accepted ones must move exactly the fee into the collector.",
-  "signature primitives and sign-bytes construction are trusted here (C19/C20); same-block replays are outside the app's knowledge; " + CH, "DESIGN.md §4 C03")
+  "for transactions the harness builds, signature validity is known by construction (which key signed which content, what changed afterwards) and required fees are keyed by Go type; only byte-level mutants use the library's verification; same-block replays are outside the app's knowledge; " + CH, "DESIGN.md §4 C03")
 claim("C04", "history invariant checking of pool backing over generated staking histories (rapid)", "exploration",
   "After every ABCI call the staked-pool balance must equal the stake recorded for staked/unstaking validators plus direct sends to the pool; accepted stakes and matured unstakes must move exactly the recorded amounts.",
   CH, "DESIGN.md §4 C04")
@@ -53,10 +53,10 @@ claim("C05", "model-based testing of the validator-update stream against a Tende
   "a batch that empties the set ends the comparison for that history; " + CH, "DESIGN.md §4 C05")
 claim("C06", "model-based state-machine checking of validator lifecycle edges and secondary indexes over generated histories (rapid)", "exploration",
   "Validator records before/after every call must follow the legal edges with their stated cause; the raw power index and unstaking queue are compared with the primary records; releases must happen at the first block at/after begin+UnstakingTime with the whole stake; non-unstaked validators keep the minimum stake.",
-  "StakeMinimum is not changed in these histories; " + CH, "DESIGN.md §4 C06")
+  "parameters (StakeMinimum, UnstakingTime ...) are changed by governance within histories; the minimum-stake clause is judged only while the parameter is unchanged, as stated; " + CH, "DESIGN.md §4 C06")
 claim("C07", "reference arithmetic model (math/big) of slashing applied to generated BeginBlocks (rapid)", "exploration",
   "Queued burns, downtime slashes and double-sign evidence of generated blocks are replayed on an exact sequential model of the statement; per-validator stake, status, tombstone, pool, supply and bystander balances must match, and BeginBlock must complete.",
-  "which validators cross the downtime threshold is taken from the block's slash events (C08 decides when); two test-pinned evidence panics are known findings; " + CH, "DESIGN.md §4 C07")
+  "which validators cross the downtime threshold is taken from the block's slash events (C08 decides when and checks the amount); queued burn severities come from the harness's own handler log; two test-pinned evidence panics are known findings; " + CH, "DESIGN.md §4 C07")
 claim("C08", "ring-buffer reference model of the downtime window over generated vote sequences (rapid)", "exploration",
   "For generated vote patterns of length up to 4 windows the stored counter, offset and missed-bit array of every validator must equal a ring-buffer model after every block, and the slash+jail must occur at exactly the first block the statement names and reset the window.",
   "window parameters unchanged within a history; " + CH, "DESIGN.md §4 C08")
